@@ -328,7 +328,7 @@ func c09Batch(op string, id int) []vPoint {
 // a bare flush is then redundant ("X Y F" = "X YF"). RO = clean close + reopen (flushes the memtable, reloads files).
 func c09Ops(big bool) []string {
 	if !big {
-		return []string{"WR", "WE", "WB", "W4F", "WNF", "WLF", "WRF", "WOF", "WEF", "WBF", "LC", "FC", "MO", "RO"}
+		return []string{"WR", "WE", "WB", "WNF", "WLF", "WRF", "WOF", "WEF", "WBF", "LC", "FC", "MO", "RO"}
 	}
 	return []string{"W4", "WN", "WL", "WR", "WO", "WE", "WB", "Wc", "We", "Wh", "W4F", "WNF", "WLF", "WRF", "WOF", "WEF", "WBF", "WcF",
 		"LC", "FC", "MO", "MF", "RO"}
@@ -346,6 +346,15 @@ func c09Apply(v *vShard, m vModel, op string, id int) error {
 			v.Flush()
 		}
 		return nil
+	}
+	if op == "MO" || op == "MF" {
+		// The out-of-order merge's column writer (merge_performer.go columnWriter.write -> ColVal.AppendTimes on a
+		// split remainder whose BitMapOffset != 0) panics in a background goroutine when the segment row limit is not
+		// a multiple of 8; unreachable with the default limit (1000), reachable with the 2-row segments of
+		// vSetupEngineKnobs as soon as one series merges more than 2 rows in two steps (minimal: "WB WEF WNF MO").
+		// Not this property (reported to the lead); the merge itself runs with 8-row segments here.
+		immutable.SetMaxRowsPerSegment4TsStore(8)
+		defer immutable.SetMaxRowsPerSegment4TsStore(2)
 	}
 	return vApply(v, m, op, id)
 }
@@ -427,20 +436,34 @@ func c09SegShape(segs []c09Seg) string {
 	return b.String()
 }
 
-// c09Coverage classifies every segment against [start,end]: F fully covered, P partially, N disjoint.
+// c09Coverage classifies every stored chunk (one series in one file: the unit that carries the statistics the
+// shortcut trusts, ChunkMeta.allRowsInRange) against [start,end]: F fully covered (statistics may be used),
+// P partially covered (data must be read, segments outside the range skipped), N disjoint.
 func c09Coverage(segs []c09Seg, start, end int64) (pattern string, full, partial int) {
 	var b strings.Builder
-	for _, s := range segs {
+	for i := 0; i < len(segs); {
+		j := i
+		min, max := segs[i].Min, segs[i].Max
+		for j < len(segs) && segs[j].File == segs[i].File && segs[j].Sid == segs[i].Sid {
+			if segs[j].Min < min {
+				min = segs[j].Min
+			}
+			if segs[j].Max > max {
+				max = segs[j].Max
+			}
+			j++
+		}
 		switch {
-		case s.Max < start || s.Min > end:
+		case max < start || min > end:
 			b.WriteByte('N')
-		case start <= s.Min && s.Max <= end:
+		case start <= min && max <= end:
 			b.WriteByte('F')
 			full++
 		default:
 			b.WriteByte('P')
 			partial++
 		}
+		i = j
 	}
 	return b.String(), full, partial
 }
@@ -923,11 +946,45 @@ type c09State struct {
 	level    int // query-set level
 }
 
-// c09Kind names the violation by what differs: the aggregate, and whether the shortcut was eligible.
-func c09Kind(va c09Variant, c c09AggField) string {
+// c09Kind names the violation by what differs: the aggregate, and whether the shortcut was eligible. One defect has
+// its own kind: first/last over several series answering with the (correct) first/last value of the wrong series,
+// i.e. the per-series candidates were compared on wrong timestamps.
+func c09Kind(va c09Variant, c c09AggField, rows []c09Row, exp map[c09GroupKey][]vVal, got map[c09GroupKey]vVal) string {
 	path := "rows_path"
 	if va.lenient() {
 		path = "preagg_path"
+	}
+	if (c.Agg == "first" || c.Agg == "last") && !va.ByHost {
+		perHost := va
+		perHost.ByHost = true
+		other := true
+		for k, g := range got {
+			cands, ok := exp[k]
+			if !ok {
+				other = false
+				break
+			}
+			hit := false
+			for _, cv := range cands {
+				hit = hit || c09SameVal(cv, g)
+			}
+			if hit {
+				continue
+			}
+			found := false
+			for hk, hv := range c09Expected(rows, perHost, c) {
+				if hk.Bucket != k.Bucket {
+					continue
+				}
+				for _, cv := range hv {
+					found = found || c09SameVal(cv, g)
+				}
+			}
+			other = other && found
+		}
+		if other && len(got) == len(exp) {
+			return fmt.Sprintf("%s_%s_value_of_wrong_series", c.Agg, path)
+		}
 	}
 	return fmt.Sprintf("%s_%s_mismatch", c.Agg, path)
 }
@@ -1030,8 +1087,8 @@ func c09CheckState(rep *kit.Report, v *vShard, st c09State) (failed bool) {
 					}
 					if len(diffs) > 0 {
 						nViol++
-						rep.Violation(c09Kind(va, c), key+" | "+q,
-							fmt.Sprintf("%s(%s): %s; layout %s; segments covered %s mem=%v; rows %s", c.Agg, c.Field,
+						rep.Violation(c09Kind(va, c, use, exp, got), key+" | "+q,
+							fmt.Sprintf("%s(%s): %s; layout %s; chunks covered %s mem=%v; rows %s", c.Agg, c.Field,
 								strings.Join(diffs, "; "), shape, pattern, mem, c09FmtRows(use)),
 							c09Case{Ops: st.hist, Query: q})
 					}
@@ -1212,8 +1269,10 @@ func c09Explore(rep *kit.Report, scratch string, ops []string, depth, fullDepth,
 			}
 			cur := append([]int(nil), seq...)
 			rep.Count("histories", 1)
+			fmt.Println("H", strings.Join(names, " "))     // the worker's log names the running history if the process dies
+			noQuery := kit.Getenv("C09_NOQUERY", "") != "" // development aid: run the histories only
 			noopAt, failed := c09RunHistory(rep, dir, names, func(i int) (bool, int) {
-				if i+1 < fromLen {
+				if i+1 < fromLen || noQuery {
 					return false, 0 // evaluated by an earlier pass
 				}
 				if prev != nil && i < common {
